@@ -172,6 +172,10 @@ package store
 //@   requires [wiring] s.db != nil
 //@   observe gh := call GetHeader
 //@   observe ge := call Get
+//@   observe ub := call UnmarshalBinary
+// a saved block is found whatever its records hold - a data record of zero bytes is the valid encoding of an empty body
+// (the genesis block, the early save of an empty block): the read fails only if a record is missing or does not decode
+//@   ensures [fails-only-for-cause] err != nil ==> (gh && gh.res1 != nil) || (ge && ge.res1 != nil) || (ub && ub.res0 != nil)
 //@   ensures [reads-both-records] err == nil ==> header != nil && data != nil && gh.count == 1 && gh.res1 == nil && gh.arg2 == height && header == gh.res0
 //@                       && ge.count == 1 && ge.res1 == nil && ge.arg2.string == dskey(KeyData(height))
 //@   ensures [nil-on-error] err != nil ==> header == nil && data == nil
